@@ -43,6 +43,12 @@ def run(tier):
     _a_integrate_times(chk)
     _a_propagate(chk)
     _a_propagate_options(chk)
+    _a_facade_chain(chk)
+    # a direction wrapper is not an instance of the Hamiltonian protocol although it forwards attribute reads (rhs_params
+    # included) to the wrapped system: every integrator must send it through the generic kernels with the wrapper's own
+    # (sign-flipped) right-hand side; the parametric fast path integrates the un-reversed field (C17.d's dispatch table)
+    from . import c17
+    c17._d_dispatch(Relabel(chk, {"C17.d": "C10.b-dispatch"}))
     c03._directed_semantics(_Relabel(chk), signed_time=True)
     c03._direction_sites(_Relabel(chk))
     c03._directed_memo(_Relabel(chk))
@@ -97,9 +103,18 @@ def _run_integrate(cls_name, modname, drivers, tv, rep, fwd=None, ham=False, eve
     obj = _integrator(cls_name, modname)
     attrs = {"rhs_params": (sp.Symbol("JAC"), sp.Symbol("CLMO"), sp.Symbol("NDOF")), "dim": 2, "rhs": sp.Symbol("RHS"), "jac_H": sp.Symbol("JAC"),
              "clmo_H": sp.Symbol("CLMO"), "n_dof": 1}
-    if fwd is not None:
-        attrs["_fwd"] = fwd
     system = SymObj(None, attrs, "system")
+    if fwd is not None:
+        # a direction-wrapped system exactly as _DirectedSystem's own constructor builds it (what the integrator reads off it
+        # - attribute names included - is then the code's business, not the model's)
+        dmod, dcls = ri.find_def(BASE, "_DirectedSystem")
+        base = system
+        ipc = Interp()
+        ipc.isinstance_hook = lambda v, c: (v is base) if (isinstance(c, ClassRef) and c.node.name == "_DynamicalSystem") else None
+        try:
+            system = ipc.instantiate(ClassRef(dmod, dcls), [base, fwd], {})
+        except OutsideFragment as exc:
+            raise AnalysisError(f"_DirectedSystem.__init__ outside fragment: {exc}")
     y0 = tagvec("y0")
     try:
         sol = ip.apply(ip.getattr(obj, "integrate"), [system, y0, tv], {"event_fn": (sp.Symbol("EVF") if event else None), "event_cfg": None, "event_options": None})
@@ -263,6 +278,75 @@ def _a_propagate_options(chk):
                       f"{ctor} is built with {k} for order={OD}" + (f", rtol={RT}, atol={AT}, max_step={MS}" if label == "given" else " and no tolerances given")
                       + ": an option does not reach the integrator under its own name", sample=f"{method}/{label}: {ctor}({', '.join(sorted(k))}) forwarded", nontrivial=(label == "given"))
     chk.count("functions partially evaluated", 6)
+
+
+def _a_facade_chain(chk):
+    """Span and direction mean what the caller said all the way down: System.propagate and the system service's propagate are
+    interpreted for the four sign combinations of (tf, forward); the signed end time forward*tf that reaches
+    _propagate_dynsys (t0 = 0) must be the caller's (a negative span is a decreasing grid, to be integrated or rejected
+    below - or normalised together with the direction - never silently mirrored), and steps / order / method arrive under
+    their own names."""
+    STEPS, ORD = sp.Symbol("STEPS", integer=True, positive=True), sp.Symbol("ORD", integer=True)
+    y0 = tagvec("y0")
+    bmod, bcls = ri.find_def("hiten.system.base", "System")
+    smod, scls = ri.find_def("hiten.algorithms.types.services.system", "_SystemsDynamicsService")
+    smeth = ri.class_member(smod, scls, "propagate")
+    params = [a.arg for a in smeth[2].args.args][1:]
+    pmod, pfn = ri.find_def(BASE, "_propagate_dynsys")
+    pparams = [a.arg for a in pfn.args.args]
+    for tf, fwd in ((R(2), 1), (R(2), -1), (R(-2), 1), (R(-2), -1)):
+        tag = f"tf={tf},forward={fwd}"
+        # facade
+        seen = {}
+
+        def svc_prop(*a, **k):
+            seen["a"], seen["k"] = a, k
+            return sp.Symbol("TRAJ")
+
+        sysobj = SymObj(ClassRef(bmod, bcls), {"dynamics": SymObj(None, {"propagate": svc_prop}, "dynamics")}, "system")
+        ip = Interp()
+        try:
+            out = ip.apply(ip.getattr(sysobj, "propagate"), [y0, tf], {"steps": STEPS, "method": "fixed", "order": ORD, "forward": fwd})
+        except OutsideFragment as exc:
+            raise AnalysisError(f"System.propagate outside fragment: {exc}")
+        except KpeRaise as exc:
+            chk.ok("C10.d-facade", f"hiten.system.base::System.propagate[{tag}]", sample=f"{tag}: rejected ({exc.text[:60]})", nontrivial=False)
+            continue
+        bound = dict(zip(params, seen.get("a", ())))
+        bound.update(seen.get("k", {}))
+        ok = out == sp.Symbol("TRAJ") and bound.get("tf") is not None and bound.get("forward") is not None and S(bound["tf"]) * S(bound["forward"]) == tf * fwd \
+            and bound.get("steps") == STEPS and bound.get("order") == ORD and bound.get("method") == "fixed"
+        chk.check(ok, "C10.d-facade", f"hiten.system.base::System.propagate[{tag}]",
+                  f"System.propagate({tag}) asks the service for tf={bound.get('tf')}, forward={bound.get('forward')}, steps={bound.get('steps')}, order={bound.get('order')}: "
+                  f"the signed end time is {S(bound.get('tf', sp.nan)) * S(bound.get('forward', sp.nan))} instead of {tf * fwd}", sample=f"{tag}: end time forward*tf = {tf * fwd} handed on")
+        # service
+        got = {}
+
+        def prop(ip_, a, k):
+            got.update(k)
+            got["_args"] = a
+            return sp.Symbol("SOL")
+
+        ip = Interp(overrides={"_propagate_dynsys": prop, "from_solution": lambda ip_, a, k: sp.Symbol("TRAJ")})
+        svc = SymObj(ClassRef(smod, scls), {"dynsys": sp.Symbol("DYNSYS"), "make_key": lambda *a: "KEY", "get_or_create": lambda k, f: f()}, "service")
+        try:
+            ip.apply(ip.getattr(svc, "propagate"), [y0], {"tf": tf, "steps": STEPS, "method": "fixed", "order": ORD, "forward": fwd, "extra_kwargs": None})
+        except OutsideFragment as exc:
+            raise AnalysisError(f"_SystemsDynamicsService.propagate outside fragment: {exc}")
+        except KpeRaise as exc:
+            chk.ok("C10.d-facade", f"hiten.algorithms.types.services.system::_SystemsDynamicsService.propagate[{tag}]", sample=f"{tag}: rejected ({exc.text[:60]})", nontrivial=False)
+            continue
+        if not got:
+            raise AnalysisError("anchor: _SystemsDynamicsService.propagate no longer calls _propagate_dynsys")
+        b2 = dict(zip(pparams, got.pop("_args")))
+        b2.update(got)
+        st = b2.get("state0")
+        ok = all(b2.get(k) is not None for k in ("t0", "tf", "forward")) and S(b2["t0"]) == 0 and S(b2["tf"]) * S(b2["forward"]) == tf * fwd and b2.get("dynsys") == sp.Symbol("DYNSYS") \
+            and b2.get("steps") == STEPS and b2.get("order") == ORD and b2.get("method") == "fixed" and st is not None and list(to_obj_array(st)) == list(y0)
+        chk.check(ok, "C10.d-facade", f"hiten.algorithms.types.services.system::_SystemsDynamicsService.propagate[{tag}]",
+                  f"the service calls _propagate_dynsys with t0={b2.get('t0')}, tf={b2.get('tf')}, forward={b2.get('forward')}, steps={b2.get('steps')}, order={b2.get('order')}, "
+                  f"dynsys={b2.get('dynsys')}: not the caller's span/direction/options", sample=f"{tag}: _propagate_dynsys(self.dynsys, state, t0=0, tf, forward, steps, method, order)")
+    chk.count("functions partially evaluated", 8)
 
 
 def _c_descending(chk):
